@@ -222,6 +222,7 @@ type E1Mode struct {
 	CloserP     float64 // probability that a duplex rpc gets a concurrent closer task
 	StormP      float64 // probability of the "unary storm" program family
 	PooledP     float64 // probability of the pooled family (client calls go through drpcpool)
+	ServeCancelP float64 // probability that the server's context is cancelled at a scheduler-chosen instant
 }
 
 func e1ModeFor(prop string) E1Mode {
@@ -232,7 +233,7 @@ func e1ModeFor(prop string) E1Mode {
 	case "C02":
 		m.MaxRPCs, m.MaxTasks, m.Misbehave, m.CancelP, m.ErrP, m.OnlyUnaryP, m.StormP = 6, 3, 0.4, 0.35, 0.3, 0.2, 0.25
 	case "C04":
-		m.MaxRPCs, m.CancelP, m.Duplex, m.StallP, m.SmallNet, m.Misbehave, m.CloserP = 2, 0.9, 0.6, 0.5, 0.5, 0.2, 0.6
+		m.MaxRPCs, m.CancelP, m.Duplex, m.StallP, m.SmallNet, m.Misbehave, m.CloserP, m.ServeCancelP = 2, 0.9, 0.6, 0.5, 0.5, 0.2, 0.6, 0.15
 	case "C05":
 		m.MaxRPCs, m.IOFaults, m.ErrP, m.Misbehave, m.Duplex, m.ServeP, m.NoInact, m.MetaP = 3, true, 0.2, 0.2, 0.2, 0, true, 0.3
 	case "C06":
@@ -619,6 +620,9 @@ func genE1(ch *Choices, mode E1Mode) *E1Prog {
 	if g.chance(mode.StallP) {
 		k := []string{"stall-c2s", "stall-s2c"}[g.pick(2)]
 		p.FaultTask = append(p.FaultTask, FaultTask{Kind: k, Delay: g.delay()})
+	}
+	if g.chance(mode.ServeCancelP) {
+		p.FaultTask = append(p.FaultTask, FaultTask{Kind: "cancel-serve", Delay: g.delay()})
 	}
 	if g.chance(mode.CloseFaults) {
 		kinds := []string{"close-client-conn", "close-server-tr", "close-client-tr", "cancel-serve", "close-client-conn-twice"}
